@@ -4,7 +4,7 @@
    and the palette size bounds 1 <= |palette| <= max(k, 8). *)
 From Coq Require Import List NArith ZArith Bool Lia Arith.
 From Coq Require Import ZifyBool ZifyNat ZifyN.
-From SNT Require Import Base.Outcome Image.KDTree Image.Octree.
+From SNT Require Import Base.Outcome Image.KDTree Image.Octree Image.OctreePath.
 Import ListNotations.
 
 Arguments N.add : simpl never.
@@ -576,7 +576,7 @@ Lemma oc_insert_wf t c :
              (1 <= lsum nleaves (o_children t'))%nat /\
              (lsum nleaves (o_children t) <= lsum nleaves (o_children t'))%nat.
 Proof.
-  intros [Hlen Hall Hb Hs] Hc. unfold oc_insert, path_of.
+  intros [Hlen Hall Hb Hs] Hc. unfold oc_insert. rewrite (path_packed_eq c Hc). unfold path_of.
   destruct (path_n_ok 8 c Hc) as [Hl Hf].
   destruct (path_n 8 c) as [|k rest]; [discriminate|].
   inversion Hf as [|? ? Hk Hrest]; subst. cbn [length] in Hl. injection Hl as Hl.
